@@ -166,7 +166,7 @@ func scAttr() Scenario {
 		aProvider("CreateProvider", "P1", a1, "aaa=1"),
 		aProvider("UpdateProvider", "P1", nil, "none"), aProvider("UpdateProvider", "P1", a1, "aaa=1"), aProvider("UpdateProvider", "P1", ab, "aaa=1,bbb=1"), aProvider("UpdateProvider", "P1", a2, "aaa=2"),
 		aProvider("CreateProvider", "P2", ab, "aaa=1,bbb=1"),
-		aSign("U1", "P1", a1, "aaa=1"), aSign("U1", "P1", attrs("bbb", "1"), "bbb=1"), aSign("U1", "P1", attrs("ccc", "1"), "ccc=1"), aSign("U1", "P1", a2, "aaa=2"), aSign("U2", "P1", ab, "aaa=1,bbb=1"),
+		aSign("U1", "P1", a1, "aaa=1"), aSign("U1", "P1", attrs("bbb", "1"), "bbb=1"), aSign("U1", "P1", attrs("ccc", "1"), "ccc=1"), aSign("U1", "P1", attrs("AAA", "1"), "AAA=1"), aSign("U1", "P1", a2, "aaa=2"), aSign("U2", "P1", ab, "aaa=1,bbb=1"),
 		aUnsign("U1", "P1", nil, "all"), aUnsign("U1", "P1", []string{"aaa"}, "aaa"), aUnsign("U2", "P1", nil, "all"),
 		aUnsign("U1", "P1", []string{"bbb", "aaa"}, "bbb+aaa"), aUnsign("U2", "P1", []string{"bbb", "aaa"}, "bbb+aaa"),
 		aCreateDeploymentReq("T1", 1, "aaa=1", reqOf(a1, nil, nil)),
